@@ -17,6 +17,7 @@ from __future__ import annotations
 import itertools
 from typing import Any, Dict, List
 
+import gentie
 import reclib03 as R
 import vlib
 
@@ -407,6 +408,9 @@ def run(ctx: vlib.Ctx):
                       found_input=False)
     elif disagreements:
         ctx.notes.append(f"{len(disagreements)} model/impl disagreements (first: {str(disagreements[0])[:600]})")
+    # generated tie: IH5Record._base_filename/_infer_name are re-translated from the current source and
+    # proved equal to Rec/Names.v (coq/Gen/Equiv_record.v)
+    gentie.report(ctx)
 
 
 def replay(rep) -> int:
